@@ -69,6 +69,13 @@ def families(tier):
         return {"name": name, "places": places, "npts": npts, "nets": [(tuple(t), None, None, None) for t in tsets],
                 "statuses": list(itertools.product(alphabet, repeat=npts)), "alphabet": alphabet, "modes": modes, "lay": lay}
 
+    def tolfam(name, places, variants):
+        # rejection tolerance of the absolute terms (linear types): displacements just inside tol-abs in every component
+        # (length beyond it) under sign patterns SG, and just outside in one component OC of one point
+        f = fam(name, places, 3, lin, ST4, tuple(sorted(set(v["mode"] for v in variants))))
+        f["variants"] = variants
+        return f
+
     def dhfam(name, places, nets, modes):
         return {"name": name, "places": places, "npts": 3, "nets": [(t, r, dh_masks(t, r, bo), sts) for (t, r, bo, sts) in nets],
                 "statuses": None, "alphabet": None, "modes": modes, "lay": 0}
@@ -79,6 +86,8 @@ def families(tier):
         return [
             fam("azimuth3", P, 3, [("azimuth",)], ST4, ("true",)),
             fam("linear3", P, 3, lin, ST4, ("far", "omit", "noisy")),
+            tolfam("tolin3", [1, 5], [{"mode": "tolin", "sg": sg} for sg in ("+++", "+-+")]),
+            tolfam("tolout3", [1], [{"mode": "tolout", "sg": sg, "oc": oc} for sg, oc in (("+-+", 0), ("-+-", 1), ("++-", 2))]),
             dhfam("dhlinear3", [1], [n[:3] + (n[3][:2],) for n in DH_NETS[:1]], ("omit", "noisy")),
             dhfam("dh3", [1], [n[:3] + (n[3][:2],) for n in DH_NETS], ("pert",)),
             # places midlat, south60, near180: at south60 a station displaced alone sees B and C in line to 2e-9 rad (known finding: acos)
@@ -92,6 +101,8 @@ def families(tier):
     return [
         fam("azimuth3", P, 3, [("azimuth",)], ST5, ("true",)),
         fam("linear3", P, 3, lin, ALL9, ("far", "omit", "noisy")),
+        tolfam("tolin3", P, [{"mode": "tolin", "sg": "".join(sg)} for sg in itertools.product("+-", repeat=3)]),
+        tolfam("tolout3", P, [{"mode": "tolout", "sg": sg, "oc": oc} for sg in ("-+-", "++-") for oc in (0, 1, 2)]),
         dhfam("dhlinear3", P, DH_NETS[:1], ("far", "omit", "noisy")),
         dhfam("dh3", P, DH_NETS, ("true", "pert")),
         fam("wrap3", P, 3, withangle, STA, ("true", "pert"), lay=1),
@@ -290,9 +301,10 @@ def main():
         for pl in places:
             for (types, recs, masks, sts) in F["nets"]:
                 for st in (sts or F["statuses"]):
-                    for mode in modes:
+                    for var in (F.get("variants") or [{"mode": m} for m in modes]):
                         for mask in (masks or [None]):
-                            sp = {"place": pl, "npts": npts, "types": tuple(types), "status": tuple(st), "mode": mode}
+                            sp = {"place": pl, "npts": npts, "types": tuple(types), "status": tuple(st)}
+                            sp.update(var)
                             if recs is not None:
                                 sp["recs"] = tuple(recs)
                             if F["lay"]:
@@ -305,7 +317,7 @@ def main():
                       % (name, len(places), npts,
                          ("%d type sets" % len(F["nets"])) if not nmask else ("%d record sets with every assignment of from-dh/to-dh absent/present to their records (%d masks)" % (len(F["nets"]), nmask)),
                          ("%d^%d statuses" % (len(F["alphabet"]), npts)) if F["alphabet"] else ("%s status tuples" % "/".join(str(len(n[3])) for n in F["nets"])),
-                         "/".join(modes), " x layout 'ray' (angles within 3 cc of 0/400 gon, sights 53-111 m)" if F["lay"] else "", len(specs)))
+                         "/".join(modes) + ((" (%d sign patterns / out-of-tolerance components)" % len(F["variants"])) if F.get("variants") else ""), " x layout 'ray' (angles within 3 cc of 0/400 gon, sights 53-111 m)" if F["lay"] else "", len(specs)))
         done = 0
         for i in range(0, len(specs), 4000):
             if ck.time_left() < deadline_margin:
@@ -342,6 +354,9 @@ def main():
         "noisy vector networks: own weighted least squares), zero residuals, agreement of the 4 algorithms, of all record orders and of all groupings of the records into <obs> clusters, and of Adj on the dump. "
         "Instrument / target heights: in the dh families every record that accepts <from-dh>/<to-dh> (vector, distance, zenith; angle: from-dh) carries them or not, in every combination; the observed value then refers to "
         "the points displaced along their local vertical (reference model of its own) - alone in its <obs> and, in the order layer, in every grouping of the records into multi-piece clusters. "
+        "Rejection tolerance tol-abs (families tol*): approximate coordinates of the vector / xyz networks displaced in X, Y, Z so that every component of every absolute term is inside tol-abs = 1 m "
+        "(0.05-0.95 m) while the lengths are beyond it (1.3-1.65 m), under sign patterns: nothing may be rejected and the truth is reproduced; and with one component of one point at 1.05 m: exactly the records "
+        "with an absolute term beyond tol-abs in a component are listed as rejected and the equations drop by their dimension (counters records_kept_with_absolute_term_longer_than_tol_abs / records_to_be_rejected). "
         "Angles through 0 / 400 gon: the layout 'ray' (families wrap*) holds angles of +2..3 cc and 400 gon - 2..3 cc whose value computed from the displaced approximate coordinates falls on the other side of the wrap, "
         "in both directions (counters angles_observed_above_0_computed_below_400 / angles_observed_below_400_computed_above_0). "
         "A state = one generated input file that was executed; a transition = one gama-g3 execution or one Adj solution of a dump. Families: " + " | ".join(bounds),
@@ -354,6 +369,7 @@ def main():
             "a rank defect counts as exact only if no zenith-angle or angle row touches a parameter on which the null space lives: those rows may legitimately be approximated (plane formulae, neglected tilt of the verticals, relative 1e-7..6e-3), and then the rank of the implementation's matrix is decided by the neglected terms (seen: gso/svd defect 0, envelope/cholesky defect 1 for zenith networks at 89.9 N and for hdiff+angle networks with a common height shift); such networks are excluded as ambiguous",
             "tolerance of adjusted = generating: 2e-6 m; from displaced approximate coordinates in networks with zenith angles plus eps x 0.57 mm, eps = (1/6.33e6 m) / min(|u|/s) <= 6.5e-3 = the turn of the station's vertical with its position, which gama's plane zenith row leaves out (at most 3.7e-6 m more; observed 2.1-2.3e-6 m where only zenith angles determine a horizontal position). gama-g3 takes one Gauss-Newton step, so a neglected term of relative size eps leaves eps x displacement; with approximate = generating coordinates the tolerance stays 2e-6 m",
             "gama-g3 does not iterate: approximate coordinates are the generating ones or displaced by 0.3-0.6 mm (second order term < 1e-9 m); 0.17-0.34 m only for the linear vector/xyz families",
+            "tol-abs is the default of Model (1000 mm), not varied through <tol-abs>; that an observation with an absolute term beyond it is excluded is documented for gama-local (doc/gama-local-adj.texi) - gama-g3 has no text of its own; after a rejection only the rejected set and the number of equations are judged, and networks left without any parameter are not generated",
             "status combinations exist only for n,e jointly (the parser refuses different n and e states) and u",
             "azimuth is not in the alphabet (every <azimuth> is refused by the parser: known finding; family azimuth3 keeps it visible)",
             "angles are clockwise left -> right in 0..400 gon; every network with angles contains the explement of its first angle (> 200 gon); angles nearer to 0 / 400 gon than 2 cc are not generated (gama takes the angle from an arc cosine: resolution 1e-16 rad / angle)",
